@@ -27,6 +27,7 @@ ASSUMPTIONS = ["Meyer's range-based set reconciliation algorithm is correct when
 EXPLANATION += ' (R3, round 8) session accounting is read off one evaluated session step (Replica::sync_process_message on replica open/closed x the store yielding a reply / the end / an error). (R8) the counts a side reports are those of its last step (= C10.R1/R2 session tables). (R9) the opening message evaluated: one part, the fingerprint of the full circular range anchored at the first key; a failing store call is an error; handed out only while the replica is open.'
 EXPLANATION += " Round 9: R4 also carries C02.R10 (the scan range of one author's key prefix evaluated on concrete ids and prefixes)."
 EXPLANATION += ' Round 10: R10 = C08.R5 (what is fingerprinted and sent is everything held: the plain scan yields every row, deletion markers included).'
+EXPLANATION += ' Round 11: (R11) the frame limit of the session codec is not below 2^30 (constant rule).'
 
 
 def r1(ctx):
